@@ -262,6 +262,6 @@ SUBS = [
         doc="corpus reactions under renumbering / re-ordering / fragment shuffle / reversal / added explicit hydrogens"),
     Sub("pairs_exhaustive", body_pair, enum=enum_small_pairs, exhaustive=("thorough",), shards={"quick": 8, "thorough": 16},
         doc="every synthetic pair on n<=3 (thorough) / n<=2 and a 1/50 slice of n=3 (quick)"),
-    Sub("pairs_random", body_pair, strategy=strat_pair, examples={"quick": 5000, "thorough": 200000},
+    Sub("pairs_random", body_pair, strategy=strat_pair, examples={"quick": 5000, "thorough": 100000},
         shards={"quick": 8, "thorough": 16}, doc="synthetic pairs n<=6, dense, independent sides"),
 ]
